@@ -24,14 +24,14 @@ theorem minFirst_spec (tOf : H → α) : ∀ (hs : List H) (best : Option H),
   | [], best => by
       refine ⟨fun h hh => ?_, ?_⟩
       · simp only [minFirst] at hh
-        exact ⟨Or.inl hh, fun b hb => by rw [hh] at hb; cases hb; exact le_rfl, fun _ h' => by cases h'⟩
+        exact ⟨Or.inl hh, (fun b hb => by rw [hh] at hb; cases hb; exact le_rfl), (fun _ h' => by cases h')⟩
       · simp [minFirst]
   | x :: xs, none => by
       have ih := minFirst_spec tOf xs (some x)
       refine ⟨fun h hh => ?_, ?_⟩
       · simp only [minFirst] at hh
         obtain ⟨h1, h2, h3⟩ := ih.1 h hh
-        refine ⟨Or.inr ?_, fun b hb => by cases hb, ?_⟩
+        refine ⟨Or.inr ?_, (fun b hb => by cases hb), ?_⟩
         · rcases h1 with h1 | h1
           · cases h1; exact List.mem_cons_self
           · exact List.mem_cons_of_mem _ h1
@@ -167,7 +167,7 @@ theorem joinedStep_fold (tOf : H → α) (r : R) : ∀ (parts : List (Collider R
       intro res
       refine ⟨by simp [res], fun h hh => ?_⟩
       simp only [res, List.foldl_nil] at hh
-      exact ⟨Or.inl hh, fun b hb => by rw [hh] at hb; cases hb; exact le_rfl, fun c hc => by cases hc⟩
+      exact ⟨Or.inl hh, (fun b hb => by rw [hh] at hb; cases hb; exact le_rfl), (fun c hc => by cases hc)⟩
   | c :: cs, init => by
       intro res
       have ih := joinedStep_fold tOf r cs (joinedStep tOf init (c.first r))
@@ -186,24 +186,24 @@ theorem joinedStep_fold (tOf : H → α) (r : R) : ∀ (parts : List (Collider R
         cases hc : c.first r with
         | none =>
           simp only [hc, joinedStep] at hs
-          exact ⟨Or.inl hs, fun b hb => by rw [hs] at hb; cases hb; exact le_rfl, fun h' hh' => by cases hh'⟩
+          exact ⟨Or.inl hs, (fun b hb => by rw [hs] at hb; cases hb; exact le_rfl), (fun h' hh' => by cases hh')⟩
         | some x =>
           cases hi : init with
           | none =>
             simp only [hc, hi, joinedStep, Option.some.injEq] at hs
             subst hs
-            exact ⟨Or.inr rfl, fun b hb => by cases hb, fun h' hh' => by cases hh'; exact le_rfl⟩
+            exact ⟨Or.inr rfl, (fun b hb => by cases hb), (fun h' hh' => by cases hh'; exact le_rfl)⟩
           | some b0 =>
             simp only [hc, hi, joinedStep] at hs
             by_cases hlt : tOf x < tOf b0
             · simp only [hlt, if_true, Option.some.injEq] at hs
               subst hs
-              exact ⟨Or.inr rfl, fun b hb => by cases hb; exact le_of_lt hlt,
-                fun h' hh' => by cases hh'; exact le_rfl⟩
+              exact ⟨Or.inr rfl, (fun b hb => by cases hb; exact le_of_lt hlt),
+                (fun h' hh' => by cases hh'; exact le_rfl)⟩
             · simp only [hlt, if_false, Option.some.injEq] at hs
               subst hs
-              exact ⟨Or.inl rfl, fun b hb => by cases hb; exact le_rfl,
-                fun h' hh' => by cases hh'; exact not_lt.1 hlt⟩
+              exact ⟨Or.inl rfl, (fun b hb => by cases hb; exact le_rfl),
+                (fun h' hh' => by cases hh'; exact not_lt.1 hlt)⟩
       refine ⟨?_, fun h hh => ?_⟩
       · rw [ih.1, step_some]
         constructor
@@ -295,13 +295,13 @@ theorem joined_contract' (tOf : H → α) (admit : R → Bool) (parts : List (Co
     constructor
     · rintro ⟨c, hc, hs⟩ hz
       have : (c.ray r true).1 = 0 := by
-        have := List.sum_eq_zero_iff.1 hz
+        have := List.sum_eq_zero_iff_forall_eq_nat.1 hz
         exact this _ (List.mem_map.2 ⟨c, hc, rfl⟩)
       exact ((hp c hc).first_iff.1 hs) this
     · intro hz
       by_contra hcon
       apply hz
-      apply List.sum_eq_zero_iff.2
+      apply List.sum_eq_zero_iff_forall_eq_nat.2
       intro x hx
       obtain ⟨c, hc, rfl⟩ := List.mem_map.1 hx
       by_contra hne
